@@ -1,0 +1,8 @@
+//go:build verif
+
+package timeutil
+
+// Contracts for the deductive verifier in /verif (govc); comments only.
+
+/*@
+@*/
